@@ -37,6 +37,8 @@ func (w *World) ledgerPrefix() ([]Op, map[string]TransferSpec) {
 	// a fee paid to a MODULE address that no account object exists for yet (the dust collector is created lazily by
 	// the first sweep): histories continue from the state in which the fee action has created an account there
 	addT(TransferSpec{"channel-0", denomUSDC, "400", orb, w.FwdInternal(w.Bob), []FeeSpec{{To: w.Dust.String(), Fixed: "1"}}})
+	// ... and the same under the upper-case bech32 spelling of that address (a refusal by string comparison would let it through)
+	addT(TransferSpec{"channel-0", denomUSDC, "401", orb, w.FwdInternal(w.Bob), []FeeSpec{{To: strings.ToUpper(w.Dust.String()), Fixed: "1"}}})
 	// magnitudes: a stray balance of 2^63-1 in an 18-decimal style denomination, and a transfer in that denomination (it sweeps
 	// the stray balance: the dust collector then holds an amount at the edge of the 64-bit range)
 	addT(TransferSpec{"channel-0", denomBIG2, "1000", orb, w.FwdInternal(w.Bob), nil})
@@ -74,6 +76,7 @@ func (w *World) feeMenu() [][]FeeSpec {
 		{{To: w.Fee1.String(), Fixed: "7"}, {To: w.Fee2.String(), Bps: 250}},
 		{{To: w.Orb.String(), Bps: 100}},
 		{{To: w.Dust.String(), Fixed: "5"}},
+		{{To: strings.ToUpper(w.Orb.String()), Bps: 100}},
 	}
 }
 
